@@ -1,7 +1,311 @@
-(* Validate_proofs.v — lemmas about model/Validate.v (C05; shared with C04). *)
+(* Validate_proofs.v — lemmas about model/Validate.v used by C05 (drift
+   detection, dispatch) and shared with C04 (proofs/Fixpoint_proofs.v). *)
 From Koreo Require Import Json Payload Validate.
 From Coq Require Import Lia.
 Local Open Scope list_scope.
 
+Arguments is_directive : simpl never.
+
+(* ------------------------------------------------------------------ *)
+(* association lists                                                   *)
+(* ------------------------------------------------------------------ *)
+
+Lemma v_eqb_sym (a b : string) : String.eqb a b = String.eqb b a.
+Proof.
+  destruct (String.eqb a b) eqn:E.
+  - apply String.eqb_eq in E. subst. symmetry. apply String.eqb_refl.
+  - symmetry. apply String.eqb_neq. apply String.eqb_neq in E. congruence.
+Qed.
+
+Lemma v_lookup_set_key_eq {A} k (v : A) kvs : lookup k (set_key k v kvs) = Some v.
+Proof.
+  induction kvs as [|[k' v'] r IH]; cbn.
+  - rewrite String.eqb_refl. reflexivity.
+  - destruct (String.eqb k k') eqn:E; cbn; rewrite E; auto.
+Qed.
+
+Lemma v_lookup_set_key_neq {A} k k' (v : A) kvs :
+  String.eqb k' k = false -> lookup k' (set_key k v kvs) = lookup k' kvs.
+Proof.
+  intros N. induction kvs as [|[k2 v2] r IH]; cbn.
+  - rewrite N. reflexivity.
+  - destruct (String.eqb k k2) eqn:E; cbn.
+    + apply String.eqb_eq in E. subst k2. rewrite N. reflexivity.
+    + destruct (String.eqb k' k2); auto.
+Qed.
+
+Lemma v_lookup_del_key_eq {A} k (kvs : list (string * A)) : lookup k (del_key k kvs) = None.
+Proof.
+  induction kvs as [|[k' v'] r IH]; cbn; auto.
+  destruct (String.eqb k k') eqn:E; cbn; auto. rewrite E. auto.
+Qed.
+
+Lemma v_lookup_del_key_neq {A} k k' (kvs : list (string * A)) :
+  String.eqb k' k = false -> lookup k' (del_key k kvs) = lookup k' kvs.
+Proof.
+  intros N. induction kvs as [|[k2 v2] r IH]; cbn; auto.
+  destruct (String.eqb k k2) eqn:E; cbn.
+  - apply String.eqb_eq in E. subst k2. rewrite N. auto.
+  - destruct (String.eqb k' k2); auto.
+Qed.
+
+Lemma v_mem_str_In k l : mem_str k l = true <-> In k l.
+Proof.
+  induction l as [|x r IH]; cbn; [split; [discriminate|tauto]|].
+  rewrite Bool.orb_true_iff, IH, String.eqb_eq. split; intros [H|H]; auto.
+Qed.
+
+Lemma v_lookup_In {A} k (v : A) kvs : lookup k kvs = Some v -> In (k, v) kvs.
+Proof.
+  induction kvs as [|[k' v'] r IH]; cbn; [discriminate|].
+  destruct (String.eqb k k') eqn:E.
+  - apply String.eqb_eq in E. subst. intros H. inversion H. auto.
+  - auto.
+Qed.
+
+Lemma v_lookup_None_notin {A} k (kvs : list (string * A)) :
+  lookup k kvs = None -> ~ In k (map fst kvs).
+Proof.
+  induction kvs as [|[k' v'] r IH]; cbn; auto.
+  destruct (String.eqb k k') eqn:E; [discriminate|].
+  intros H [C|C]; [subst; rewrite String.eqb_refl in E; discriminate | exact (IH H C)].
+Qed.
+
+Lemma v_nodup_lookup {A} k (v : A) kvs :
+  nodup_str (map fst kvs) = true -> In (k, v) kvs -> lookup k kvs = Some v.
+Proof.
+  induction kvs as [|[k' v'] r IH]; cbn; [tauto|].
+  intros ND [H|H].
+  - inversion H. subst. rewrite String.eqb_refl. reflexivity.
+  - apply Bool.andb_true_iff in ND. destruct ND as [N1 N2].
+    destruct (String.eqb k k') eqn:E.
+    + apply String.eqb_eq in E. subst k'. exfalso.
+      apply Bool.negb_true_iff in N1.
+      assert (mem_str k (map fst r) = true) by (apply v_mem_str_In, (in_map fst _ _ H)).
+      congruence.
+    + auto.
+Qed.
+
+(* ------------------------------------------------------------------ *)
+(* outcome sets                                                        *)
+(* ------------------------------------------------------------------ *)
+
 Lemma ounion_match_l o : ounion O_match o = o.
 Proof. destruct o; reflexivity. Qed.
+
+Lemma ounion_match_r o : ounion o O_match = o.
+Proof. destruct o as [a b c d e]; unfold ounion; cbn; rewrite !Bool.orb_false_r; reflexivity. Qed.
+
+Lemma ounion_comm a b : ounion a b = ounion b a.
+Proof.
+  destruct a, b; unfold ounion; cbn; f_equal; apply Bool.orb_comm.
+Qed.
+
+Lemma ounion_match_inv a b : ounion a b = O_match -> a = O_match /\ b = O_match.
+Proof.
+  destruct a as [[] [] [] [] []], b as [[] [] [] [] []]; unfold ounion, O_match; cbn;
+    intros H; try discriminate H; auto.
+Qed.
+
+Lemma ounion_false_match : ounion O_false O_match = O_false.
+Proof. reflexivity. Qed.
+
+Lemma ounion_false_false : ounion O_false O_false = O_false.
+Proof. reflexivity. Qed.
+
+Lemma is_match_true o : is_match o = true <-> o = O_match.
+Proof.
+  destruct o as [[] [] [] [] []]; unfold is_match, O_match; cbn; split; intros H;
+    try discriminate H; auto.
+Qed.
+
+Lemma is_match_O_false : is_match O_false = false.
+Proof. reflexivity. Qed.
+
+Lemma O_raise_not_match e : O_raise e <> O_match.
+Proof. destruct e; unfold O_match; cbn; discriminate. Qed.
+
+Lemma O_false_not_match : O_false <> O_match.
+Proof. unfold O_false, O_match; discriminate. Qed.
+
+Lemma O_oom_not_match : O_oom <> O_match.
+Proof. unfold O_oom, O_match; discriminate. Qed.
+
+Lemma outs_of_fail_match {A} (c : comp A) : outs_of_fail c = O_match -> exists a, c = Ret a.
+Proof.
+  destruct c; cbn; intros H; eauto.
+  - exfalso. exact (O_raise_not_match _ H).
+  - exfalso. exact (O_oom_not_match H).
+Qed.
+
+(* contradiction from "a definite non-match equals O_match" *)
+Ltac onomatch H :=
+  exfalso;
+  first [ exact (O_raise_not_match _ H) | exact (O_false_not_match H) | exact (O_oom_not_match H)
+        | (apply outs_of_fail_match in H; destruct H as [? H]; discriminate H)
+        | (unfold O_match, O_false, O_oom in H; discriminate H) ].
+
+(* ------------------------------------------------------------------ *)
+(* the key loop                                                        *)
+(* ------------------------------------------------------------------ *)
+
+Section KeyLoop.
+  Variable rec : json -> json -> json -> bool -> outs.
+  Variables (sk lk : list string) (cfg : list (string * list json)).
+
+  Lemma keys_loop_match ak la l :
+    keys_loop rec sk lk cfg ak la l = O_match <->
+    (forall k tv, In (k, tv) l -> is_directive k = false ->
+                  key_match rec sk lk cfg ak la k tv = O_match).
+  Proof.
+    induction l as [|[k tv] r IH]; cbn.
+    - split; auto. intros _ ? ? [].
+    - destruct IH as [IH1 IH2]. destruct (is_directive k) eqn:D.
+      + split.
+        * intros H k' tv' [E|I] D'; [inversion E; subst; congruence | apply IH1; auto].
+        * intros H. apply IH2. intros k' tv' I D'. apply H; auto.
+      + split.
+        * intros H. apply ounion_match_inv in H. destruct H as [H1 H2].
+          intros k' tv' [E|I] D'; [inversion E; subst; auto|]. apply IH1; auto.
+        * intros H. rewrite (H k tv) by auto.
+          rewrite ounion_match_l. apply IH2. intros; apply H; auto.
+  Qed.
+
+  (* every key matches or mismatches, at least one mismatches: definite mismatch *)
+  Lemma keys_loop_false ak la l :
+    (forall k tv, In (k, tv) l -> is_directive k = false ->
+        key_match rec sk lk cfg ak la k tv = O_match \/
+        key_match rec sk lk cfg ak la k tv = O_false) ->
+    (exists k tv, In (k, tv) l /\ is_directive k = false /\
+        key_match rec sk lk cfg ak la k tv = O_false) ->
+    keys_loop rec sk lk cfg ak la l = O_false.
+  Proof.
+    induction l as [|[k tv] r IH]; cbn; intros A [k0 [tv0 [I [D F]]]]; [destruct I|].
+    assert (R : keys_loop rec sk lk cfg ak la r = O_match \/ keys_loop rec sk lk cfg ak la r = O_false).
+    { destruct (Bool.bool_dec (is_match (keys_loop rec sk lk cfg ak la r)) true) as [M|M].
+      - left. apply is_match_true. exact M.
+      - right. apply IH; [intros; apply A; auto|].
+        (* some key of r does not match *)
+        assert (E : ~ (forall k' tv', In (k', tv') r -> is_directive k' = false ->
+                        key_match rec sk lk cfg ak la k' tv' = O_match)).
+        { intros C. apply M. apply is_match_true. apply keys_loop_match. exact C. }
+        clear - A E.
+        induction r as [|[k1 tv1] r1 IHr].
+        + exfalso. apply E. intros ? ? [].
+        + destruct (is_directive k1) eqn:D1.
+          * destruct IHr as [k2 [tv2 [I2 [D2 F2]]]].
+            -- intros k' tv' I'. apply A. cbn in *. tauto.
+            -- intros C. apply E. intros k' tv' [X|X] D'; [inversion X; subst; congruence | auto].
+            -- exists k2, tv2. cbn. auto.
+          * destruct (A k1 tv1) as [X|X]; [cbn; auto | auto | | exists k1, tv1; cbn; auto].
+            destruct IHr as [k2 [tv2 [I2 [D2 F2]]]].
+            -- intros k' tv' I'. apply A. cbn in *. tauto.
+            -- intros C. apply E. intros k' tv' [Y|Y] D'; [inversion Y; subst; auto | auto].
+            -- exists k2, tv2. cbn. auto. }
+    destruct (is_directive k) eqn:Dk.
+    - destruct I as [E|I]; [inversion E; subst; congruence|].
+      apply IH; [intros; apply A; auto | exists k0, tv0; auto].
+    - destruct I as [E|I].
+      + inversion E. subst k0 tv0. rewrite F.
+        destruct R as [R|R]; rewrite R; reflexivity.
+      + assert (R' : keys_loop rec sk lk cfg ak la r = O_false).
+        { apply IH; [intros; apply A; auto | exists k0, tv0; auto]. }
+        rewrite R'. destruct (A k tv) as [X|X]; auto; rewrite X; reflexivity.
+  Qed.
+End KeyLoop.
+
+(* ------------------------------------------------------------------ *)
+(* one key of the loop                                                 *)
+(* ------------------------------------------------------------------ *)
+
+Section KeyMatch.
+  Variable rec : json -> json -> json -> bool -> outs.
+  Variables (sk lk : list string) (cfg : list (string * list json)).
+
+  (* key_match looks at the live map only through `lookup k` *)
+  Lemma key_match_ext ak ak' la k tv :
+    lookup k ak' = lookup k ak ->
+    key_match rec sk lk cfg ak' la k tv = key_match rec sk lk cfg ak la k tv.
+  Proof. intros E. unfold key_match. rewrite E. reflexivity. Qed.
+
+  Lemma specified_key_inv k :
+    specified_key lk k = true ->
+    is_directive k = false /\ String.eqb k K_OWNERS = false /\ mem_str k lk = false.
+  Proof.
+    unfold specified_key. intros H.
+    apply Bool.andb_true_iff in H. destruct H as [H H3].
+    apply Bool.andb_true_iff in H. destruct H as [H1 H2].
+    apply Bool.negb_true_iff in H1, H2, H3. auto.
+  Qed.
+
+  (* a specified key that is missing from the live map: mismatch, provided the
+     last-applied document can be probed (it could when the key was there) *)
+  Lemma key_match_missing ak la k tv lav :
+    specified_key lk k = true -> probe_la la k = LaVal lav -> lookup k ak = None ->
+    key_match rec sk lk cfg ak la k tv = O_false.
+  Proof.
+    intros S P N. apply specified_key_inv in S. destruct S as [_ [S2 S3]].
+    unfold key_match. rewrite S2, P, S3, N. reflexivity.
+  Qed.
+
+  (* a specified key matched: the last-applied probe succeeded *)
+  Lemma key_match_probe ak la k tv v :
+    specified_key lk k = true -> lookup k ak = Some v ->
+    key_match rec sk lk cfg ak la k tv = O_match ->
+    exists lav, probe_la la k = LaVal lav.
+  Proof.
+    intros S Lk H. apply specified_key_inv in S. destruct S as [_ [S2 S3]].
+    unfold key_match in H. rewrite S2, S3, Lk in H.
+    destruct (probe_la la k) as [lav| |] eqn:P.
+    - eauto.
+    - onomatch H.
+    - cbn in H. destruct (lookup k cfg) as [fields|].
+      + destruct (list_to_object tv fields); cbn in H; try onomatch H;
+          destruct (list_to_object v fields); cbn in H; onomatch H.
+      + onomatch H.
+  Qed.
+
+  (* plain key (not compared as a map): the value is handed to the recursive call *)
+  Lemma key_match_plain ak la k tv v lav :
+    specified_key lk k = true -> lookup k cfg = None ->
+    probe_la la k = LaVal lav -> lookup k ak = Some v ->
+    key_match rec sk lk cfg ak la k tv = rec tv v lav (mem_str k sk).
+  Proof.
+    intros S C P Lk. apply specified_key_inv in S. destruct S as [_ [S2 S3]].
+    unfold key_match. rewrite S2, P, S3, Lk, C. reflexivity.
+  Qed.
+
+  (* key compared as a keyed collection *)
+  Lemma key_match_as_map ak la k tv v lav fields T A :
+    specified_key lk k = true -> lookup k cfg = Some fields ->
+    probe_la la k = LaVal lav -> lookup k ak = Some v ->
+    list_to_object tv fields = Ret T -> list_to_object v fields = Ret A ->
+    key_match rec sk lk cfg ak la k tv =
+      match list_to_object lav fields with
+      | Ret L => rec T A L false
+      | c => outs_of_fail c
+      end.
+  Proof.
+    intros S C P Lk LT LA. apply specified_key_inv in S. destruct S as [_ [S2 S3]].
+    unfold key_match. rewrite S2, P, S3, Lk, C, LT, LA. reflexivity.
+  Qed.
+
+  (* the whole loop after a change of the live map at one specified key *)
+  Lemma keys_loop_dev tk ak ak' la k tv :
+    nodup_str (map fst tk) = true -> lookup k tk = Some tv -> is_directive k = false ->
+    keys_loop rec sk lk cfg ak la tk = O_match ->
+    (forall k1, String.eqb k1 k = false -> lookup k1 ak' = lookup k1 ak) ->
+    key_match rec sk lk cfg ak' la k tv = O_false ->
+    keys_loop rec sk lk cfg ak' la tk = O_false.
+  Proof.
+    intros ND Lk D H Same F.
+    apply keys_loop_false.
+    - intros k1 tv1 I D1. destruct (String.eqb k1 k) eqn:E.
+      + apply String.eqb_eq in E. subst k1. right.
+        apply v_nodup_lookup in I; auto. rewrite Lk in I. inversion I. subst. exact F.
+      + left. rewrite key_match_ext by (apply Same; exact E).
+        revert k1 tv1 I D1 E. intros k1 tv1 I D1 _.
+        exact (proj1 (keys_loop_match rec sk lk cfg ak la tk) H k1 tv1 I D1).
+    - exists k, tv. split; [apply v_lookup_In; exact Lk|]. auto.
+  Qed.
+End KeyMatch.
